@@ -21,6 +21,8 @@ RULE = ("cases = identity instances evaluated on values RETURNED by the real `pa
         "off-curve operands")
 ASSUMPTIONS = ["'refused with an error' = any exception instead of a returned value", "r is prime, so e != 1 and e^r = 1 give order exactly r"]
 
+REPLAY_BY_SHARD = True
+
 
 def shards(tier):
     return 16
